@@ -171,7 +171,12 @@ func init() {
 	})
 	reg("(*encoding/json.Encoder).Encode", func(ex *Exec, fr *Frame, site ssa.Instruction, a []Value) Value {
 		p := nilCheck(fr, site, a[0])
-		w := engState[decoderState](ex, "jsonenc", p).src
+		est := engState[decoderState](ex, "jsonenc", p)
+		// an Encoder's write error is sticky: every later Encode returns it without writing
+		if est.stickErr != nil {
+			return *est.stickErr
+		}
+		w := est.src
 		i := a[1].(Iface)
 		var n *JNode
 		var e *jsonErr
@@ -184,6 +189,9 @@ func init() {
 			return ex.jsonErrValue(e)
 		}
 		r := ex.writeTo(fr, site, w, &Rope{parts: []interface{}{n, mkStr("\n")}}).(Tuple)
+		if we, ok := r[1].(Iface); ok && we.t != nil {
+			est.stickErr = &we
+		}
 		return r[1]
 	})
 	reg("(*encoding/json.Encoder).SetEscapeHTML", func(ex *Exec, fr *Frame, site ssa.Instruction, a []Value) Value { return nil })
